@@ -5,6 +5,7 @@
 #define VH_SCHED_CORE_HPP
 
 #include "tsm_core.hpp"
+#include "cnt_core.hpp"
 #include "rt/sched.hpp"
 #include "algorithms/openmp/tbfopenmpalgorithm.hpp"
 #include "algorithms/openmp/tbfopenmpalgorithmtsm.hpp"
@@ -185,6 +186,40 @@ template <class E> Segment c09OmpSegment(long nQ, long nT, bool tsan) {
         res.desc = fmm::tsmDesc<E>(c) + " executor=TbfOpenmpAlgorithmTsm schedules=" + vh::str(sc.size());
         ompTsm<E>(c, sc, res, "c09", tsan);
         res.sig = "tsm-omp:" + vh::str(vh::mix(c.seed, 10)); res.nontrivial = res.events["tasks-executed"] > long(sc.size()) * 3;
+    };
+    return s;
+}
+
+template <class E> Segment c18OmpSegment(long nQ, long nT, bool tsan) {
+    constexpr int D = E::Cfg::Dim;
+    using Real = typename E::Cfg::RealType;
+    Segment s; s.name = std::string("c18-omp-") + E::orderingName() + "-D" + vh::str(D);
+    s.count = [=](bool th) { return th ? nT : nQ; };
+    s.run = [=](long kk, uint64_t seed, bool th, Result& res) {
+        vh::Rng r(vh::mix(seed ^ 0xC18, uint64_t(kk) * 4 + D));
+        auto c = fmm::randomConf<E>(r, vh::mix(seed, kk), 250, false, E::Space::IsPeriodic ? 2 : (r.coin(0.8) ? 3 : 1));
+        if (c.blockSize > 8 && r.coin(0.6)) c.blockSize = 1 + long(r.below(6));
+        const long N = long(c.parts.size());
+        const auto sc = schedulesFor(r, th, tsan);
+        res.desc = fmm::confDesc<E>(c) + " executor=TbfOpenmpAlgorithm kernel=counter<P-poly> schedules=" + vh::str(sc.size());
+        fmm::PolyRun<E, typename E::PolyKernel> seq; seq.build(c);
+        { TbfAlgorithm<Real, typename E::PolyKernel, typename E::Space> a(*seq.cfg, c.upper); a.execute(*seq.tree); }
+        const auto ref = fmm::snapshotTree<E>(*seq.tree, N);
+        bool ok = true; const auto leafOf = tbx::leafOfParticle<D>(*seq.tree, N, &ok);
+        vm::Cells<D> cells; cells.build(c.geo.H, tbx::leafSet<D>(leafOf));
+        const auto e = fmm::expectedCounts<D>(cells, leafOf, E::Space::IsPeriodic, c.upper);
+        using K = TbfInteractionCounter<typename E::PolyKernel>;
+        for (const auto& sd : sc) {
+            fmm::PolyRun<E, K> pr; pr.build(c);
+            vsched::configure(sd.threads, sd.policy, sd.seed);
+            auto algo = std::make_unique<TbfOpenmpAlgorithm<Real, K, typename E::Space>>(*pr.cfg, c.upper);
+            algo->execute(*pr.tree);
+            if (!(fmm::snapshotTree<E>(*pr.tree, N) == ref)) res.fail("c18:wrapped-results-differ", "counter<P-poly> under " + schedStr(sd));
+            fmm::mergeAndCheck<decltype(*algo), K>(*algo, e, 1, r, res, "c18", "schedule " + schedStr(sd));
+            if (r.coin(0.3)) { algo->execute(*pr.tree); fmm::mergeAndCheck<decltype(*algo), K>(*algo, e, 2, r, res, "c18", "two executes, schedule " + schedStr(sd)); }
+            res.ev("schedules-executed");
+        }
+        res.sig = std::string("omp:") + fmm::confSig<E>(c, vh::mix(c.seed, 19)); res.nontrivial = e.M2L + e.P2P > 0;
     };
     return s;
 }
